@@ -366,6 +366,15 @@ def identities(tier):
                                lambda T, dim=dim: F.stack([T["a"], T["b"]], dim), lambda T, dim=dim: F.concat([F.unsqueeze(T["a"], dim), F.unsqueeze(T["b"], dim)], dim)))
             cs.append(PairCase("unbind(stack)=identity", {"shape": shape, "dim": dim}, [L("a", shape), L("b", shape)],
                                lambda T, dim=dim: F.unbind(F.stack([T["a"], T["b"]], dim), dim)[1] * 1.0, lambda T: T["b"] * 1.0))
+    # joins over operands that do and do not require grad (constants in front of and between the differentiable ones): three and four operands
+    for shape, dim in [((3,), 0), ((2, 3), 1), ((2, 3), -1)]:
+        for flags in [(False, True, True), (True, False, True), (False, True, False, True)]:
+            leaves = [L("t%d" % i, shape, "any", fl) for i, fl in enumerate(flags)]
+            names = [l.name for l in leaves]
+            cs.append(PairCase("stack=concat(unsqueeze)", {"shape": shape, "dim": dim, "requires_grad": list(flags)}, leaves,
+                               lambda T, dim=dim, names=names: F.stack([T[n_] for n_ in names], dim), lambda T, dim=dim, names=names: F.concat([F.unsqueeze(T[n_], dim) for n_ in names], dim)))
+            cs.append(PairCase("unbind(stack)=identity", {"shape": shape, "dim": dim, "requires_grad": list(flags)}, leaves,
+                               lambda T, dim=dim, names=names: F.unbind(F.stack([T[n_] for n_ in names], dim), dim)[len(names) - 1] * 1.0, lambda T, names=names: T[names[-1]] * 1.0))
     for shape in [(2, 3), (2, 3, 2)]:
         n = len(shape)
         for s_ in range(n):
@@ -425,7 +434,19 @@ def identities(tier):
             cols = NF.unfold(F.unsqueeze(T["x"], 2), (1, k), (1, d), (1, s), (0, p), float("-inf") if kind == "max" else 0)      # (1, k, l)
             red = F.max(cols, 1) if kind == "max" else F.mean(cols, 1)
             return F.reshape(red, (1, 1, l))
+        def pool1_slices(T, kind, k=k, s=s, p=p, d=d, l=l, Lx=Lx):
+            # every window assembled by plain element indexing (taps that fall into the padding are left out of the max / count as 0 in the mean): independent of the
+            # library's window helpers
+            x = T["x"]
+            outs = []
+            for i in range(l):
+                idxs = [i * s - p + j * d for j in range(k) if 0 <= i * s - p + j * d < Lx]
+                win = F.stack([x[:, :, t] for t in idxs], 0)
+                outs.append(F.max(win, 0) if kind == "max" else F.sum(win, 0) / _const(float(k)))
+            return F.stack(outs, 2)
         for kind, fn in (("max", NF.max_pool1d), ("avg", NF.avg_pool1d)):
+            cs.append(PairCase("%s_pool1d=slices;%s" % (kind, "max" if kind == "max" else "mean"), {"L": Lx, "kernel": k, "stride": s, "padding": p, "dilation": d}, [L("x", (1, 1, Lx))],
+                               lambda T, fn=fn, k=k, s=s, p=p, d=d: fn(T["x"], k, s, p, d), lambda T, kind=kind, pr=pool1_slices: pr(T, kind), functions=(NFN + kind + "_pool1d",), max_paths=2500))
             cs.append(PairCase("%s_pool1d=windows;%s" % (kind, "max" if kind == "max" else "mean"), {"L": Lx, "kernel": k, "stride": s, "padding": p, "dilation": d}, [L("x", (1, 1, Lx))],
                                lambda T, fn=fn, k=k, s=s, p=p, d=d: fn(T["x"], k, s, p, d), lambda T, kind=kind, pr=pool1_rhs: pr(T, kind), functions=(NFN + kind + "_pool1d",), max_paths=2500))
     # ---- modules
